@@ -9,6 +9,8 @@ import NodisVerif.Proofs.C04ScoreSpec
 import NodisVerif.Proofs.C04Rank
 import NodisVerif.Proofs.C08Step
 import NodisVerif.Model.Handler3
+import NodisVerif.Proofs.GeoAdd
+import NodisVerif.Proofs.GeoRange
 /-
   C04 — sorted sets stay ordered by (score, member); rank, range and score agree.
 
@@ -475,5 +477,111 @@ end handlers
      tied to the code by the RESP streams and pinned by witnesses only; there is no general theorem relating
      the handlers' parsing to the reference semantics.
 -/
+
+/-! ### GEOADD is a ZADD of the geohash score; the geohash bit tricks (work package D)
+
+  Model: Model/Handler4.lean (`geoAdd`, `geoScore`), Model/Geohash.lean (`interleave64`, `deinterleave64`,
+  `encode`), exact float arithmetic in Model/F64More.lean.  Tie: RESP streams with GEO commands mixed into
+  sorted-set commands on the same keys, `api GeoAdd` in the embedded-API streams, and the `geo` operation lines
+  (float operations and geohash functions of the real code against the model on limits and random operands). -/
+
+section geo
+open NodisVerif.Proofs.GeoAdd NodisVerif.Proofs.GeoBits NodisVerif.Geohash NodisVerif.Handler4
+
+/-- GEOADD of one item IS `ZAdd(key, member, float64(hash))`: same store afterwards (index, backend, watch
+    signals, change records), same reply -/
+theorem geoadd_is_zadd (s : MState) (now : Int) (key m : Bytes) (lon lat : F64) :
+    geoAdd s now key [(m, geoScore lon lat)] = Api.zadd s now key m (geoScore lon lat) :=
+  geoAdd_single s now key m _
+
+/-- GEOADD of several items: one `writeKey`, the `ZAdd` fold over the items in argument order on the sorted
+    set, one watch signal, one ZADD record per item; a key of another type panics before anything changes -/
+theorem geoadd_is_zadd_fold (s : MState) (now : Int) (key : Bytes) (it : Bytes × F64) (items : List (Bytes × F64)) :
+    geoAdd s now key (it :: items) =
+      (match Api.asZSet (Store.writeKey s now key (some (.zset DsZSet.empty))).1 key with
+       | none => ((Store.writeKey s now key (some (.zset DsZSet.empty))).1, .panic)
+       | some z =>
+         (emitAll key (it :: items)
+            (Store.signal (Api.setVal (Store.writeKey s now key (some (.zset DsZSet.empty))).1 key (.zset (zaddAll z (it :: items)).1)) key),
+          .int (zaddAll z (it :: items)).2)) :=
+  geoAdd_eq s now key it items
+
+/-- the fold keeps the sorted-set invariant (dictionary = index, strict (score, member) order) -/
+theorem geoadd_keeps_wf : ∀ (items : List (Bytes × F64)) (z : ZSet) (acc : Int), z.WF →
+    (∀ it ∈ items, F64.isNaN it.2 = false) →
+    (items.foldl (fun (a : ZSet × Int) it => ((DsZSet.zAdd a.1 it.1 it.2).1, a.2 + (DsZSet.zAdd a.1 it.1 it.2).2)) (z, acc)).1.WF := by
+  intro items
+  induction items with
+  | nil => intro z acc h _; exact h
+  | cons it rest ih =>
+    intro z acc h hs
+    exact ih _ _ (zadd_wf z h it.1 it.2 (hs it List.mem_cons_self)) (fun x hx => hs x (List.mem_cons_of_mem _ hx))
+
+theorem geoadd_value_wf (z : ZSet) (h : z.WF) (items : List (Bytes × F64)) (hs : ∀ it ∈ items, F64.isNaN it.2 = false) :
+    (zaddAll z items).1.WF := geoadd_keeps_wf items z 0 h hs
+
+/-- the handler: `GEOADD key lon lat member` with parsable coordinates and no NX / XX word hands
+    `execCommand` exactly the closure of `ZADD key <float64(hash)> member` -/
+theorem geoadd_handler_is_zadd (key lo la m : Bytes) (lon lat : F64)
+    (h1 : floatG lo = .ok lon) (h2 : floatG la = .ok lat)
+    (hn : Resp.opt [key, lo, la, m] "NX" = 0) (hx : Resp.opt [key, lo, la, m] "XX" = 0) :
+    geoAddH [key, lo, la, m] =
+      .exec fun s now _ => Handler.call (geoAdd s now key [(m, geoScore lon lat)]) fun s o => Handler.done s [.int (Handler.intOf o)] := by
+  simp [geoAddH, hn, hx, parseItems, h1, h2, Handler3.Pre.run, bind, pure]
+
+/-- `deinterleave64 (interleave64 x y) = (x, y)` for all 32-bit x and y (bit-by-bit evaluation of the
+    mask-and-shift steps, Proofs/GeoBits.lean; no SAT procedure) -/
+theorem deinterleave_interleave (x y : UInt64) (hx : x.toNat < 2 ^ 32) (hy : y.toNat < 2 ^ 32) :
+    deinterleave64 (interleave64 x y) = (x, y) := Proofs.GeoBits.deinterleave_interleave x y hx hy
+
+/-- interleaving two k-bit values (k ≤ 32) gives a 2k-bit value -/
+theorem interleave_size (x y : UInt64) (k : Nat) (hk : k ≤ 32) (hx : x.toNat < 2 ^ k) (hy : y.toNat < 2 ^ k) :
+    (interleave64 x y).toNat < 2 ^ (2 * k) := interleave_lt x y k hk hx hy
+
+/-- PARTIAL (`encode_in_range`): an accepted position gives a 52-bit hash PROVIDED both scaled offsets
+    truncate to less than 2^26.  What is missing for the full statement "accepted ⇒ 52 bits" is that it is
+    FALSE on the limits (`encode_limit_finding` below: offset = 2^26 exactly, also for a longitude strictly
+    below 180), and for the rest a monotonicity proof of the correctly rounded subtraction / division
+    (not done); the tie compares the model's `encode` with the real code on the limits, their neighbours
+    and random positions on every run -/
+theorem encode_in_range_partial (lon lat : F64) (h : UInt64)
+    (he : encode wgsLong wgsLat lon lat wgsStep = some h)
+    (hlat : F64.toUInt32 (F64.mul (F64.div (F64.sub lat wgsLat.min) (F64.sub wgsLat.max wgsLat.min)) (F64.ofNat (2 ^ wgsStep))) < 2 ^ 26)
+    (hlon : F64.toUInt32 (F64.mul (F64.div (F64.sub lon wgsLong.min) (F64.sub wgsLong.max wgsLong.min)) (F64.ofNat (2 ^ wgsStep))) < 2 ^ 26) :
+    h.toNat < 2 ^ 52 := by
+  rw [encode_eq _ _ _ _ _ _ he]
+  have e : ∀ n : Nat, n < 2 ^ 26 → (UInt64.ofNat n).toNat < 2 ^ 26 := by
+    intro n hn
+    rw [UInt64.toNat_ofNat_of_lt' (Nat.lt_of_lt_of_le hn (by decide))]; exact hn
+  exact interleave_lt _ _ 26 (by omega) (e _ hlat) (e _ hlon)
+
+/-- whatever the position, the hash has at most 64 bits and - both offsets being 32-bit values - is the
+    interleaving of two 32-bit values that `deinterleave64` gives back -/
+theorem encode_roundtrip (lon lat : F64) (h : UInt64) (he : encode wgsLong wgsLat lon lat wgsStep = some h) :
+    ∃ x y : UInt64, x.toNat < 2 ^ 32 ∧ y.toNat < 2 ^ 32 ∧ h = interleave64 x y ∧ deinterleave64 h = (x, y) := by
+  refine ⟨_, _, ?_, ?_, encode_eq _ _ _ _ _ _ he, ?_⟩
+  · rw [UInt64.toNat_ofNat_of_lt' (Nat.lt_of_lt_of_le (toUInt32_lt _) (by decide))]; exact toUInt32_lt _
+  · rw [UInt64.toNat_ofNat_of_lt' (Nat.lt_of_lt_of_le (toUInt32_lt _) (by decide))]; exact toUInt32_lt _
+  · rw [encode_eq _ _ _ _ _ _ he]
+    apply Proofs.GeoBits.deinterleave_interleave
+    · rw [UInt64.toNat_ofNat_of_lt' (Nat.lt_of_lt_of_le (toUInt32_lt _) (by decide))]; exact toUInt32_lt _
+    · rw [UInt64.toNat_ofNat_of_lt' (Nat.lt_of_lt_of_le (toUInt32_lt _) (by decide))]; exact toUInt32_lt _
+
+/-- an ordinary position: Palermo (13.361389, 38.115556) has the 52-bit hash Redis documents -/
+example : encodeWGS84 0x402AB907FAA044AF 0x40430ECA89FC6DA4 = 3479099956230698 := by decide +kernel
+
+/-- FINDING (recorded in FINDINGS.md, not repaired): on the limits the hash is NOT a 52-bit value. Latitude
+    85.05112878 (the maximum itself) sets bit 52; longitude 180 sets bit 53, and so does 179.99999999999997,
+    a longitude strictly inside the range (its sum with 180 rounds to 360): `float64(hash)` then exceeds 2^53 and
+    is no longer an exactly printed integer score.  The poles (latitude 90) are not rejected by GEOADD either:
+    `Hash()` drops Encode's error and the member is stored with score 0 -/
+theorem encode_limit_finding :
+    (encodeWGS84 0x402AB907FAA044AF latMax).toNat ≥ 2 ^ 52 ∧
+    (encodeWGS84 f180 0).toNat ≥ 2 ^ 53 ∧
+    F64.lt 0x40667FFFFFFFFFFF f180 = true ∧ (encodeWGS84 0x40667FFFFFFFFFFF 0).toNat ≥ 2 ^ 53 ∧
+    encode wgsLong wgsLat 0 f90 wgsStep = none ∧ geoScore 0 f90 = 0 := by
+  decide +kernel
+
+end geo
 
 end NodisVerif.C04
